@@ -139,11 +139,26 @@ def _hist(case, base) -> str:
                 db[k] = B(o[2])
             else:
                 del db[k]
-        _, mine = _record(base, live, run, notes)
+        before = _snapshot(live, case)
+        try:
+            _, mine = _record(base, live, run, notes)
+            refused = False
+        except OSError:
+            # the library refused the operation (the temporary's name exceeds NAME_MAX): it counts as not
+            # performed — nothing may have changed, and it contributes no steps
+            refused, mine = True, []
+            if _snapshot(live, case) != before:
+                verdicts.append(f"refused-op-left-debris:{i}")
+                break
+        except KeyError:
+            verdicts.append(f"unexpected-KeyError:{i}")
+            break
         steps += mine
         op_of_step += [i] * len(mine)
         m = dict(abstract[-1])
-        if o[0] == "set":
+        if refused:
+            pass
+        elif o[0] == "set":
             m[k] = B(o[2])
         else:
             m.pop(k, None)
@@ -156,7 +171,10 @@ def _hist(case, base) -> str:
         if got != m:
             verdicts.append(f"completed-op-mismatch{'-emptykey' if k == b'' else ''}:{i}")
             break
-    ends = [max([j + 1 for j in range(len(steps)) if op_of_step[j] == i], default=0) for i in range(len(case["ops"]))]
+    ends = []
+    for i in range(len(case["ops"])):
+        own = [j + 1 for j in range(len(steps)) if op_of_step[j] == i]
+        ends.append(max(own) if own else (ends[-1] if ends else 0))     # an operation without steps ends where it starts
 
     replay = os.path.join(base, "replay", "db")
     os.makedirs(replay)
@@ -177,8 +195,8 @@ def _hist(case, base) -> str:
             continue
         recovered.append(_snapshot(cdir, case))
         # ---- the property on this crash point
-        done = sum(1 for i in range(len(case["ops"])) if ends[i] and ends[i] <= j)
-        cur = done if done < len(case["ops"]) and j > (ends[done - 1] if done else 0) else None
+        done = sum(1 for i in range(len(abstract) - 1) if ends[i] <= j)
+        cur = done if done < len(abstract) - 1 and j > (ends[done - 1] if done else 0) else None
         base_map = abstract[done]
         ok = items == base_map
         if not ok and cur is not None:
@@ -257,6 +275,16 @@ def oracle(case, obs):
 # fb -> "+w==_", "?>?" -> "Pz4-_", 60 bytes -> an inner "_" (encodebytes breaks lines every 76 characters)
 KEYS = [b"a", b"b", b"ab", b"\xff\xfe", b"k" * 10, b"?>?", b"\x00", b">>>", b"\xfb\xef\xbe", b"\xff\xff\xff",
         b"\xfb", b"\xfb\xff", b"a>>", b">>>a", b"\xf8", b"0" * 60, b"\xfb\xef\xbe" * 20, b"~~~\x7f"]
+# raw keys around NAME_MAX: 181-183 bytes -> a 248-character name (the 4-byte temporary extension still fits),
+# 184-186 -> 252 (the name fits, name + extension does not: the set is refused), 187-188 -> 256 (nothing fits)
+LONG = [bytes([65 + n % 26]) * n for n in range(181, 189)] + [b"\xfb\xef\xbe" * 61 + b"ab", b"\xff" * 185]
+NAME_MAX = 255
+
+
+def storable(k: bytes) -> bool:
+    return len(enc(k)) + 4 <= NAME_MAX
+
+
 SPECIAL = [k for k in KEYS if any(c in "+-" for c in base64.encodebytes(k).decode().replace("/", "-").strip())]
 
 
@@ -274,6 +302,8 @@ def gen(rng, tier):
             keys[0] = rng.choice(SPECIAL)
         if rng.random() < 0.12:
             keys[0] = b""                      # the empty key is a key like any other
+        if rng.random() < 0.3:
+            keys[-1] = rng.choice(LONG)        # file names at the NAME_MAX boundary
         live = set()
         ops = []
         for _ in range(rng.choice([1, 2, 3, 3, 4, 5])):
@@ -283,13 +313,20 @@ def gen(rng, tier):
                 live.discard(k)
             else:
                 ops.append(["set", H(k), H(_val(rng))])
-                live.add(k)
+                if storable(k):
+                    live.add(k)            # a set whose temporary name does not fit is refused: the key stays absent
         cases.append({"k": "hist", "ops": ops})
+    # every boundary length: create, replace, replace again, next to an ordinary key
+    for k in LONG:
+        cases.append({"k": "hist", "ops": [["set", H(b"a"), H(b"1")], ["set", H(k), H(b"22")], ["set", H(k), H(b"3")],
+                                          ["set", H(b"a"), H(b"4")], ["set", H(k), H(b"")]]})
     for _ in range(120 if quick else 1500):
         files = []
         ks = rng.sample(KEYS, rng.choice([1, 2, 3]))
         if rng.random() < 0.5:
             ks[0] = rng.choice(SPECIAL)
+        if rng.random() < 0.2:
+            ks[-1] = rng.choice([k for k in LONG if storable(k)])
         for k in dict.fromkeys(ks):
             e = [H(k)] + [H(_val(rng)) if rng.random() < 0.5 else None for _ in range(3)]
             if e[1:] == [None, None, None]:
@@ -315,6 +352,10 @@ def corpus():
         {"k": "rec", "files": [[H(b"a"), None, None, H(b"new")], [H(b"b"), H(b"old"), H(b"pa"), H(b"par")],
                                [H(b"ab"), None, H(b"p"), None]]},
         {"k": "rec", "files": [[H(b"a"), H(b"v"), H(b"n"), H(b"r")]]},
+        # NAME_MAX: a 252-character name fits, its temporary does not (the set must be refused and leave nothing)
+        {"k": "hist", "ops": [["set", H(b"alpha"), H(b"one")], ["set", H(b"k" * 185), H(b"two")], ["set", H(b"alpha"), H(b"three")],
+                              ["set", H(b"k" * 185), H(b"four")], ["del", H(b"alpha")], ["set", H(b"k" * 185), H(b"five")]]},
+        {"k": "hist", "ops": [["set", H(b"k" * 183), H(b"1")], ["set", H(b"k" * 183), H(b"22")], ["del", H(b"k" * 183)]]},
         # encoded names with '+', '-', '=', inner and trailing '_'
         {"k": "hist", "ops": [["set", H(b">>>"), H(b"1")], ["set", H(b">>>"), H(b"22")], ["set", H(b"\xfb\xef\xbe"), H(b"3")],
                               ["set", H(b"\xff\xff\xff"), H(b"4")], ["set", H(b"\xff\xff\xff"), H(b"5")]]},
@@ -375,5 +416,6 @@ SPEC = Spec(
              "duplicate-free enumeration; the correspondence compares recovery steps as a set",
              "the audit-hook recorder and the per-byte expansion of writes"],
     assumptions=["no foreign files in the database directory (documented requirement of DirDBM)",
-                 "keys short enough for one file name (about 190 bytes)"],
+                 "NAME_MAX = 255 (the scratch file system's limit, modelled as Model.NAME_MAX): a set whose temporary "
+                 "name (file name + 4) does not fit is refused with OSError and counts as not performed"],
 )
